@@ -16,6 +16,7 @@ import M4riProofs.MulR
 import M4riProofs.Strassen
 import M4riProofs.GenTie
 import M4riProofs.GenTieTab
+import M4riProofs.GenTieDuff
 namespace M4ri.Props.C01
 open M4ri M4ri.BMat
 
@@ -110,5 +111,13 @@ theorem routes_agree (fuel cutoff k auto ntables thin thin' : Nat) (junk : Nat â
 
 /-! ### tie to the C text (generated by vlib/ctrans.py on every check, proved equal to the model in GenTieTab.lean) -/
 #check @M4ri.GenTieTab.mzdMakeTable_eq
+
+
+/-! ### tie to the C text: kernels with Duff devices (generated by vlib/ctrans.py on every check, proved equal to the model in
+    GenTieDuff.lean; `duff_eq`: first pass from the entry label + complete passes = `wide` single steps) -/
+#check @M4ri.GenTieDuff.mzdProcessRows_eq
+#check @M4ri.GenTieDuff.mzdCombineEvenInPlace_eq
+#check @M4ri.GenTieDuff.mzdCombineEven_eq
+#check @M4ri.GenTieDuff.duff_eq
 
 end M4ri.Props.C01
